@@ -18,6 +18,14 @@ var (
 	c05BLSp, _ = new(big.Int).SetString("1a0111ea397fe69a4b1ba7b6434bacd764774b84f38512bf6730d2a0f6b0f6241eabfffeb153ffffb9feffffffffaaab", 16)
 )
 
+func c05KStop(r *mc.R) bool {
+	if r.Violations() > 40 {
+		r.NotExhaustive("stopped early after more than 40 violations")
+		return true
+	}
+	return false
+}
+
 type c05KCase struct {
 	Op   string `json:"op"`
 	Blob string `json:"blob,omitempty"`
@@ -262,7 +270,7 @@ func TestVerif_C05_KZG(t *testing.T) {
 		r.Bound("verifyproof_cases", len(vjobs))
 		r.Parallel(len(vjobs), func(i int) {
 			j := vjobs[i]
-			if r.Violations() > 40 {
+			if c05KStop(r) {
 				return
 			}
 			var acc bool
@@ -350,7 +358,7 @@ func TestVerif_C05_KZG(t *testing.T) {
 		r.Bound("verifyblobproof_cases", len(bjobs))
 		r.Parallel(len(bjobs), func(i int) {
 			j := bjobs[i]
-			if r.Violations() > 40 {
+			if c05KStop(r) {
 				return
 			}
 			var acc bool
@@ -395,7 +403,7 @@ func TestVerif_C05_KZG(t *testing.T) {
 			})
 			r.Outcome("computeproof_rejected_point")
 		}
-		if r.Violations() > 40 || r.Expired() {
+		if c05KStop(r) || r.Expired() {
 			return
 		}
 
